@@ -1,34 +1,21 @@
-"""Per-property check specifications: which monitors are built with which flags."""
-from driver import Unit, LIBS
+"""Per-property check specifications live in fw/props/<ID>.py, each defining spec(th, seed) -> dict.
 
-F16C = ['-mf16c']
-
-
-def U(name, src, flagset='plain', **kw):
-    return Unit(name, src, flagset, **kw)
+dict keys: units (list of driver.Unit), rule (str), assumptions (list), optional: parallel_units (int),
+sanitizer (bool: judge UBSan/ASan reports), pre(bdir, repo, units), post(bdir, units, tier, seed) -> (violations, harness_failures),
+coverage_extra (dict), exhaustive (bool).
+"""
+import importlib, os, sys
+sys.path.insert(0, os.path.join(os.path.dirname(os.path.abspath(__file__)), 'props'))
 
 
 def spec(prop, tier, seed):
-    th = (tier == 'thorough')
-    fn = globals().get('spec_' + prop)
-    if not fn:
+    try:
+        mod = importlib.import_module(prop)
+    except ImportError:
         raise SystemExit('no check registered for property ' + prop)
-    return fn(th, seed)
+    return mod.spec(tier == 'thorough', seed)
 
 
 def custom_replay(rec, repo):
-    raise SystemExit('no custom replay')
-
-
-# ------------------------------------------------------------------ C07
-def spec_C07(th, seed):
-    units = [U('C07_half.plain', 'mon/C07_half.cpp', 'plain', defs=F16C)]
-    if th:
-        units.append(U('C07_half.clang', 'mon/C07_half.cpp', 'clang', defs=F16C))
-        units.append(U('C07_half.O0', 'mon/C07_half.cpp', 'plainO0', defs=F16C, args=['--x-stride', '61']))
-    return {
-        'units': units,
-        'exhaustive': False,
-        'rule': 'all 2^16 half patterns through unpackHalf1x16 and the pack(unpack()) round trip; all 2^32 float patterns through packHalf1x16 (nearest / tie / overflow / underflow / NaN / sign symmetry) and again as adjacent pairs for monotonicity; vector overloads (packHalf2x16, 4x16, packHalf<L>, unpackHalf*) on lattice tuples and random bit patterns',
-        'assumptions': ['oracle = bit-level software model of IEEE-754 binary16 written for this monitor, cross-checked on every input against the CPU F16C instructions (a disagreement between the two aborts the run as a harness failure)'],
-    }
+    mod = importlib.import_module(rec['property'])
+    return mod.custom_replay(rec, repo)
